@@ -682,7 +682,7 @@ class Eval:
                 return ("fn", d)
             if d in self.repo.classes:
                 return ("cls", d)
-            return ("mod", d)
+            return ("mod", MOD_SYNONYMS.get(d, d))
         t = self.attr_of(base, n.attr)
         if t in self.heap:
             return self.heap[t]
@@ -761,7 +761,7 @@ class Eval:
                 parts.append(("str", v.value))
             else:
                 parts.append(self.ev(v))
-        return ("fstr", tuple(parts))
+        return mk_fstr(tuple(parts))
 
     def e_FormattedValue(self, n):
         spec = self.ev(n.format_spec) if n.format_spec is not None else T.NONE
@@ -790,6 +790,9 @@ class Eval:
         return t[0] in ("seq", "map", "concat", "flatmap", "rep") or (t[0] == "call" and t[1] in ("list", "sorted"))
 
     def binop(self, op, a, b, node):
+        if isinstance(op, ast.Add) and (a[0] in ("fstr", "fmt") or b[0] in ("fstr", "fmt")) and a[0] in ("fstr", "fmt", "str") and b[0] in ("fstr", "fmt", "str"):
+            # concatenation of formatted strings is one formatted string
+            return mk_fstr((a[1] if a[0] == "fstr" else (a,)) + (b[1] if b[0] == "fstr" else (b,)))
         if isinstance(op, ast.Add):
             if (self.listy(a) or self.listy(b)) and not (a[0] == "seq" and b[0] == "seq") and a[0] != "arr" and b[0] != "arr":
                 # python list concatenation is not commutative: keep the order
@@ -1116,6 +1119,62 @@ def auto_inline(target):
 
 
 # ---------------------------------------------------------------------- term builders
+def mk_fstr(parts):
+    """formatted string: nested pieces flattened, adjacent literals merged, empty literals dropped"""
+    flat = []
+    for p_ in parts:
+        for q in (p_[1] if p_[0] == "fstr" else (p_,)):
+            if q[0] == "str" and q[1] == "":
+                continue
+            if q[0] == "str" and flat and flat[-1][0] == "str":
+                flat[-1] = ("str", flat[-1][1] + q[1])
+            else:
+                flat.append(q)
+    return ("fstr", tuple(flat))
+
+
+def parse_format(template, args, kw):
+    """'{:0{w}d}{}'.format(a, w=.., b)  ->  the same ('fstr', ...) term the f-string spelling gives; None when a field is not understood"""
+    import string
+    auto = [0]
+    kwd = dict(kw)
+
+    def field_value(name):
+        if name == "":
+            i = auto[0]
+            auto[0] += 1
+        elif name.isdigit():
+            i = int(name)
+        else:
+            if name in kwd:
+                return kwd[name]
+            return None
+        return args[i] if i < len(args) else None
+
+    def go(tpl):
+        parts = []
+        for lit, name, spec, conv in string.Formatter().parse(tpl):
+            if lit:
+                parts.append(("str", lit))
+            if name is None:
+                continue
+            if any(c in name for c in ".["):
+                return None
+            v = field_value(name)
+            if v is None:
+                return None
+            sp = T.NONE
+            if spec:
+                inner = go(spec)
+                if inner is None:
+                    return None
+                sp = mk_fstr(tuple(inner))
+            parts.append(("fmt", v, sp, ord(conv) if conv else -1))
+        return parts
+    parts = go(template)
+    return mk_fstr(tuple(parts)) if parts is not None else None
+
+
 TERM_FIELDS = ("value", "old", "key", "base", "target", "recv", "term", "test", "exc")
 
 
@@ -1322,11 +1381,29 @@ def mk_map(elt, bv, it, cond=T.TRUE):
     return ("map", elt, bv, it, cond)
 
 
+# one name per mathematical function / constant, whichever library spells it (scalars only differ in the return container)
+MOD_SYNONYMS = {"math.pi": "numpy.pi", "math.e": "numpy.e", "math.inf": "numpy.inf", "math.nan": "numpy.nan", "numpy.Inf": "numpy.inf", "numpy.NaN": "numpy.nan"}
+CALL_SYNONYMS = {"math.acos": "numpy.arccos", "math.asin": "numpy.arcsin", "math.atan": "numpy.arctan", "math.atan2": "numpy.arctan2",
+                 "math.cos": "numpy.cos", "math.sin": "numpy.sin", "math.tan": "numpy.tan", "math.exp": "numpy.exp", "math.log": "numpy.log",
+                 "math.degrees": "numpy.degrees", "math.radians": "numpy.radians", "numpy.rad2deg": "numpy.degrees", "numpy.deg2rad": "numpy.radians",
+                 "math.isclose": "numpy.isclose", "math.isnan": "numpy.isnan", "numpy.asanyarray": "numpy.asarray", "math.dist": "math.dist",
+                 "numpy.row_stack": "numpy.vstack"}
+
+
 def simplify_call(fname, recv, args, kw):
     args = tuple(args)
     kw = tuple(sorted(kw))
+    if isinstance(fname, str) and fname in CALL_SYNONYMS:
+        fname = CALL_SYNONYMS[fname]
     if isinstance(fname, tuple) and fname[0] == "m":
         meth = fname[1]
+        if meth == "format" and recv is not None and recv[0] == "str" and not any(a[0] == "star" for a in args):
+            r = parse_format(recv[1], args, kw)
+            if r is not None:
+                return r
+        if meth == "zfill" and len(args) == 1 and recv is not None and recv[0] == "call" and recv[1] == "str" and len(recv[2]) == 1:
+            # str(i).zfill(w) == f"{i:0{w}d}" for integers (the sign is kept in front by both)
+            return mk_fstr((("fmt", recv[2][0], mk_fstr((("str", "0"), ("fmt", args[0], T.NONE, -1), ("str", "d"))), -1),))
         if meth == "round":
             return ("call", "round", (recv,) + args, kw)
         if meth in ("sum", "mean", "max", "min", "median") and not args and not kw:
